@@ -176,6 +176,25 @@ fn check_multi(subjects: &[Box<dyn Subject>], subject: &str, key: &[u8], n: usiz
         if buf != orig {
             return Err(format!("encrypt_blocks(decrypt_blocks(x)) != x for n = {n}"));
         }
+        // the same round trips through separate source and destination buffers (destinations hold garbage)
+        use crate::subjects::Shape;
+        for shape in [Shape::BlocksB2b, Shape::BlocksInoutSep, Shape::BlockB2b] {
+            if !(n == 1 || n == 43) {
+                break;
+            }
+            for first in [Dir::Enc, Dir::Dec] {
+                let second = if first == Dir::Enc { Dir::Dec } else { Dir::Enc };
+                let mut mid = vec![0xE7u8; n * bs];
+                let mut back = vec![0x7Eu8; n * bs];
+                unsafe {
+                    i.call(first, shape, orig.as_ptr(), mid.as_mut_ptr(), n);
+                    i.call(second, shape, mid.as_ptr(), back.as_mut_ptr(), n);
+                }
+                if back != orig {
+                    return Err(format!("{second:?}({first:?}(x)) != x through {shape:?} with separate buffers, n = {n}"));
+                }
+            }
+        }
         Ok(())
     });
     match r {
@@ -523,7 +542,7 @@ mod sweep {
             }
             if n.starts_with("RC5<u8,") {
                 plan.push((n, 8, 64)); // 2^16 blocks
-            } else if n.starts_with("RC5<u16,") {
+            } else if n == "RC5<u16,16,8>" || n == "RC5<u16,12,16>" {
                 plan.push((n, 0, 2)); // 2^32 blocks, thorough only
             } else if n == "Speck32_64" {
                 plan.push((n, 0, 4));
